@@ -169,8 +169,8 @@ def interior(S, cfg):
             continue
         s_i = (1 - w[tnames[i]]) / dz
         # S <= 1/limit_class: the class limit covers this cell (a conservative limit is allowed)
-        S.le(f'op.diag[{i}:{cls}]', s_i * rec[cls], 1)
-        S.le(f'op.S_nonneg[{i}]', 0, s_i)
+        S.le(f'op.diag[{i}:{cls}]', s_i * rec[cls], 1, scale=1e3)
+        S.le(f'op.S_nonneg[{i}]', 0, s_i, scale=1e3)
     for cls, v in rec.items():
         S.le(f'limit.is_min[{cls}]', limit, v)
         if cls not in seen_classes:
@@ -264,7 +264,7 @@ def bypass(S, cfg):
                 S.holds(f'limit.covers_class[b{b},{c}:{cls}]', False)
                 continue
             s_i = (1 - w[me]) / dz
-            S.le(f'op.diag[b{b},{c}:{cls}]', s_i * rec[cls][b], 1)
+            S.le(f'op.diag[b{b},{c}:{cls}]', s_i * rec[cls][b], 1, scale=1e3)
     for cls, vs in rec.items():
         for b, v in enumerate(vs):
             S.le(f'limit.is_min[{cls},b{b}]', limit, v)
@@ -356,7 +356,7 @@ def unrodded(S, cfg):
         # the self weight at every candidate limit (the limit evaluated at the inlet / outlet temperature)
         # must be >= 0:  S * candidate <= 1 ; the returned value is <= every candidate
         for kk, cnd in enumerate(cands):
-            S.le(f'op.diag_at_limit[{i},cand{kk}]', s_i * cnd, 1)
+            S.le(f'op.diag_at_limit[{i},cand{kk}]', s_i * cnd, 1, scale=1e3)
     for kk, cnd in enumerate(cands):
         S.le(f'limit.is_min[cand{kk}]', limit, cnd)
     S.eq('canary.unrodded_rowsum_without_wall', sum(rows[0][0].get(k, 0) for k in tn), 1, canary=True)
